@@ -690,9 +690,63 @@ def normalise(tree, rel: str) -> int:
                     owner.body.append(ast.Pass(lineno=getattr(owner, "lineno", 1), col_offset=0))
     for qual, f, cname in _defs(tree):
         if getattr(f, "_inlined", False):
+            _fold_literals(f)
             ast.fix_missing_locations(f)
             _renumber(f)
     return total
+
+
+def _fold_literals(f):
+    """After parameters were replaced by literal arguments: f"to_{'json'}" is "to_json", a local bound once to a string literal is that
+    literal, and getattr(o, "name") is o.name -- so that a helper parametrised by a name reads like the code it was extracted from."""
+    class _F(ast.NodeTransformer):
+        def visit_JoinedStr(self, n):
+            self.generic_visit(n)
+            parts = []
+            for v in n.values:
+                if isinstance(v, ast.Constant) and isinstance(v.value, str):
+                    parts.append(v.value)
+                elif isinstance(v, ast.FormattedValue) and v.conversion == -1 and v.format_spec is None \
+                        and isinstance(v.value, ast.Constant) and isinstance(v.value.value, str):
+                    parts.append(v.value.value)
+                else:
+                    return n
+            return ast.copy_location(ast.Constant(value="".join(parts)), n)
+    _F().visit(f)
+    # string-literal locals bound exactly once
+    binds, vals = {}, {}
+    for n in ast.walk(f):
+        if isinstance(n, ast.Name) and isinstance(n.ctx, (ast.Store, ast.Del)):
+            binds[n.id] = binds.get(n.id, 0) + 1
+    for n in ast.walk(f):
+        if isinstance(n, ast.Assign) and len(n.targets) == 1 and isinstance(n.targets[0], ast.Name) and binds.get(n.targets[0].id) == 1 \
+                and isinstance(n.value, ast.Constant) and isinstance(n.value.value, str) and n.targets[0].id.startswith(("method", "attr", "name", "_")) is not None:
+            vals[n.targets[0].id] = n.value.value
+    params = {a.arg for a in f.args.posonlyargs + f.args.args + f.args.kwonlyargs}
+
+    class _P(ast.NodeTransformer):
+        def visit_Name(self, n):
+            if isinstance(n.ctx, ast.Load) and n.id in vals and n.id not in params:
+                return ast.copy_location(ast.Constant(value=vals[n.id]), n)
+            return n
+
+        def visit_FunctionDef(self, n):
+            return n if n is not f else self.generic_visit(n)
+
+        def visit_Lambda(self, n):
+            return n
+    if vals:
+        _P().visit(f)
+        _F().visit(f)
+
+    class _G(ast.NodeTransformer):
+        def visit_Call(self, n):
+            self.generic_visit(n)
+            if isinstance(n.func, ast.Name) and n.func.id == "getattr" and len(n.args) == 2 and not n.keywords \
+                    and isinstance(n.args[1], ast.Constant) and isinstance(n.args[1].value, str) and n.args[1].value.isidentifier():
+                return ast.copy_location(ast.Attribute(value=n.args[0], attr=n.args[1].value, ctx=ast.Load()), n)
+            return n
+    _G().visit(f)
 
 
 # ---------------------------------------------------------------------------------------------------------------- N-alias
